@@ -1,5 +1,5 @@
-(* C09 — linear under scaling.  PARTIAL: the fixed-weight family is proved; PCGrad, ConFIG and
-   UPGrad's regularisation defect are checked by the direct oracle only (see DESIGN.md). *)
+(* C09 — linear under scaling.  Fixed-weight family, PCGrad (every schedule), ConFIG, UPGrad without
+   regularisation (exact) and with it (defect <= const * sqrt(reg_eps), vanishing).  Obligations only. *)
 From Coq Require Import Reals List Bool Arith.
 From TJ Require Import Num Linalg NumR Agg.
 From TJ.proofs Require Import LinalgR C10Proofs.
@@ -75,3 +75,66 @@ Theorem C09_upgrad_unregularised : forall n J qp pref s s1 s2 s12 ne a b c1 c2 u
     agg_upgrad RN qp pref s12 ne 0 (rscale c12 J) = Ok (vaddR (vscaleR a x1) (vscaleR b x2)).
 Proof. exact agg_upgrad_unreg_linear_under_scaling. Qed.
 Print Assumptions C09_upgrad_unregularised.
+
+(* ---- UPGrad WITH regularisation (added): the defect of the identity is at most
+   sqrt(reg_eps)/2 * (s12 W12 + a s1 W1 + b s2 W2), where s. are the sigma_max of the three scaled
+   matrices and W. = sum_i |w0_i| the summed norms of the UNREGULARISED one-hot minimisers (they do
+   not depend on reg_eps): "bounded by a constant times sqrt(reg_eps) * s * |w|".  qp0 is any
+   oracle that answers the unregularised problems (it fixes the constants), qp the oracle the model
+   runs with at reg_eps = re ---- *)
+From TJ.proofs Require Import RegBoundProofs.
+Theorem C09_qp_regularisation_perturbs_by_sqrt : forall m G e u w0 we,
+  length G = m -> wfmat m G -> symm m G -> 0 <= e ->
+  is_min m G u w0 -> is_min m (regularize RN G e) u we ->
+  qf G (vsubR we w0) <= e * dotR we (vsubR w0 we) /\
+  e * dotR we (vsubR w0 we) <= e * (dotR w0 w0) / 4.
+Proof. exact qp_reg_perturbation. Qed.
+Print Assumptions C09_qp_regularisation_perturbs_by_sqrt.
+Theorem C09_upgrad_defect_bound : forall n J qp0 qp pref s s1 s2 s12 ne re a b c1 c2 u,
+  wfmat n J -> J <> [] -> length c1 = length J -> length c2 = length J ->
+  allpos c1 -> allpos c2 -> 0 < a -> 0 < b -> 0 <= re ->
+  pref_weights pref (mean_weights RN (length J)) (length J) = Ok u ->
+  let c12 := vaddR (vscaleR a c1) (vscaleR b c2) in
+  qp_unreg_ok qp0 J s ne u ->
+  qp_unreg_ok qp0 (rscale c1 J) s1 ne u -> qp_unreg_ok qp0 (rscale c2 J) s2 ne u ->
+  qp_unreg_ok qp0 (rscale c12 J) s12 ne u ->
+  qp_reg_ok qp (rscale c1 J) s1 ne re u -> qp_reg_ok qp (rscale c2 J) s2 ne re u ->
+  qp_reg_ok qp (rscale c12 J) s12 ne re u ->
+  exists y1 y2 y12,
+    agg_upgrad RN qp pref s1 ne re (rscale c1 J) = Ok y1 /\
+    agg_upgrad RN qp pref s2 ne re (rscale c2 J) = Ok y2 /\
+    agg_upgrad RN qp pref s12 ne re (rscale c12 J) = Ok y12 /\
+    nrm (vsubR y12 (vaddR (vscaleR a y1) (vscaleR b y2))) <=
+    sqrt re / 2 * (s12 * upgrad_Wsum qp0 (rscale c12 J) s12 ne u
+                   + a * (s1 * upgrad_Wsum qp0 (rscale c1 J) s1 ne u)
+                   + b * (s2 * upgrad_Wsum qp0 (rscale c2 J) s2 ne u)).
+Proof. exact upgrad_scaling_defect. Qed.
+Print Assumptions C09_upgrad_defect_bound.
+(* ... and it vanishes as reg_eps -> 0 (delta does not depend on the regularised oracle) *)
+Theorem C09_upgrad_defect_vanishes : forall n J qp0 pref s s1 s2 s12 ne a b c1 c2 u,
+  wfmat n J -> J <> [] -> length c1 = length J -> length c2 = length J ->
+  allpos c1 -> allpos c2 -> 0 < a -> 0 < b ->
+  pref_weights pref (mean_weights RN (length J)) (length J) = Ok u ->
+  let c12 := vaddR (vscaleR a c1) (vscaleR b c2) in
+  qp_unreg_ok qp0 J s ne u ->
+  qp_unreg_ok qp0 (rscale c1 J) s1 ne u -> qp_unreg_ok qp0 (rscale c2 J) s2 ne u ->
+  qp_unreg_ok qp0 (rscale c12 J) s12 ne u ->
+  forall eps, 0 < eps ->
+  exists delta, 0 < delta /\
+    forall re qp, 0 <= re < delta ->
+      qp_reg_ok qp (rscale c1 J) s1 ne re u -> qp_reg_ok qp (rscale c2 J) s2 ne re u ->
+      qp_reg_ok qp (rscale c12 J) s12 ne re u ->
+      exists y1 y2 y12,
+        agg_upgrad RN qp pref s1 ne re (rscale c1 J) = Ok y1 /\
+        agg_upgrad RN qp pref s2 ne re (rscale c2 J) = Ok y2 /\
+        agg_upgrad RN qp pref s12 ne re (rscale c12 J) = Ok y12 /\
+        nrm (vsubR y12 (vaddR (vscaleR a y1) (vscaleR b y2))) < eps.
+Proof. exact upgrad_scaling_defect_vanishes. Qed.
+Print Assumptions C09_upgrad_defect_vanishes.
+(* the regularised oracle contract is satisfiable for every reg_eps >= 0 (no-conflict matrices) *)
+Theorem C09_reg_contract_satisfiable : forall n J c s' ne re u, wfmat n J -> 0 < s' ->
+  nltb RN s' ne = false -> 0 <= re -> allpos c ->
+  (forall r r', In r J -> In r' J -> 0 <= dotR r r') -> nonneg u ->
+  qp_reg_ok (fun _ x => x) (rscale c J) s' ne re u.
+Proof. exact qp_reg_ok_no_conflict_rscale. Qed.
+Print Assumptions C09_reg_contract_satisfiable.
